@@ -546,8 +546,15 @@ func init() {
 		return a
 	}
 	theory[pAcc+"String"] = func(x *Exec, f *Frame, st *State, c *CallInfo) Val {
-		bechFacts(st, c.T(0))
-		return bechOfAddr(c.T(0))
+		a := c.T(0)
+		if a == nil && len(c.Args) > 0 {
+			a = x.asBytes(st, c.Args[0]) // an address cut out of a store key
+		}
+		if a == nil {
+			return x.freshTerm("bech", SStr)
+		}
+		bechFacts(st, a)
+		return bechOfAddr(a)
 	}
 	theory[pAcc+"Empty"] = func(x *Exec, f *Frame, st *State, c *CallInfo) Val {
 		return Or(Eq(c.T(0), BytesNil), bytesEmpty(c.T(0)))
